@@ -78,7 +78,11 @@ func readFileRows(data []byte) ([]parquet.Row, error) {
 	return out, nil
 }
 
-var c03Paths = []string{"GenericWriter", "GenericBuffer", "Buffer.Write", "RowBuffer", "WriteRows(Deconstruct)", "ColumnWriters"}
+var c03Paths = []string{"GenericWriter", "GenericBuffer", "Buffer.Write", "RowBuffer", "WriteRows(Deconstruct)", "ColumnWriters",
+	// both entry points of one GenericWriter used alternately, batch by batch
+	"GenericWriter(Write,WriteRows,..)", "GenericWriter(WriteRows,Write,..)",
+	// a GenericBuffer whose pages and rows are looked at between batches
+	"GenericBuffer(observed between writes)"}
 
 func c03Stream(rt *RT, path string, rows []any, cuts []int) ([]string, error) {
 	schema := rt.SchemaOf()
@@ -92,6 +96,17 @@ func c03Stream(rt *RT, path string, rows []any, cuts []int) ([]string, error) {
 		if err := rt.WriteGeneric(&buf, nil, rows, cuts, nil); err != nil {
 			return nil, err
 		}
+	case "GenericWriter(Write,WriteRows,..)", "GenericWriter(WriteRows,Write,..)":
+		if err := rt.WriteMixed(&buf, rows, cuts, path == "GenericWriter(Write,WriteRows,..)"); err != nil {
+			return nil, err
+		}
+	case "GenericBuffer(observed between writes)":
+		rg, err := rt.GenericBufferPeek(rows, cuts)
+		if err != nil {
+			return nil, err
+		}
+		rs, err := readAllRows(rg)
+		return streamOf(rs), err
 	case "GenericBuffer":
 		rg, _, err := rt.GenericBuffer(rows, cuts)
 		if err != nil {
@@ -291,7 +306,7 @@ func init() {
 	Register(&engine.Prop{
 		ID:    "C03",
 		Level: "exploration",
-		Rule: "row type x row sequence (as C01) x batch split; 7 ingestion paths compared value-by-value (column, bytes, repetition, definition level) against the reflection path, plus Reconstruct(Deconstruct(v)); " +
+		Rule: "row type x row sequence (as C01) x batch split; 10 ingestion paths (incl. typed Write and WriteRows alternating on one GenericWriter, and a GenericBuffer whose pages and rows are read between batches) compared value-by-value (column, bytes, repetition, definition level) against the reflection path, plus Reconstruct(Deconstruct(v)); " +
 			"non-trivial = >=2 rows; distinct by case description",
 		Assumptions: []string{
 			"the reflection path Writer.Write(any) is the comparison reference: a disagreement is a violation of 'every path stores exactly that sequence' whichever side is wrong",
